@@ -424,6 +424,21 @@ Proof. intros k pre d g mdc axes mdtok H. unfold nx_write_md, bind, lift. destru
   rewrite (write_dicts_refuse k pre g _ _ m H). eexists. reflexivity. Qed.
 Print Assumptions C06_nx_direct_refuse.
 
+(* ... with the exception class pinned: FileExistsError whenever the arguments themselves are acceptable (the metadata / axis
+   arguments build a metadata object and the attribute dictionaries convert to arrays); otherwise the error of the arguments, raised
+   before the store is looked at *)
+Theorem C06_nx_direct_refuse_class : forall k pre d g mdc axes mdtok,
+  exists_geff k pre = true ->
+  nx_write_md k d g mdc axes mdtok (init pre)
+  = (init pre, Err (match dict_md mdc d axes mdtok with
+                    | Err e => e
+                    | Ok _ => match dicts_wgraph g (keys_of (map snd (d_nodes g))) (keys_of (map snd (d_edges g))) with
+                              | Ok _ => FileExistsError | Err e => e end
+                    end)).
+Proof. intros k pre d g mdc axes mdtok H. unfold nx_write_md, bind, lift. destruct (dict_md mdc d axes mdtok) as [m|e]; [|reflexivity].
+  rewrite (write_dicts_refuse k pre g _ _ m H). reflexivity. Qed.
+Print Assumptions C06_nx_direct_refuse_class.
+
 (* geff.write of a networkx graph with overwrite is Write.api_write on the arrays write_dicts builds: C06_api_overwrite_partial /
    C06_api_overwrite_store_object / C06_api_overwrite_beside (known finding) are statements about the real entry point *)
 Theorem C06_api_nx_is_api_write : forall k ov d g axes mdtok axtok md w s,
